@@ -88,7 +88,11 @@ func checkConc(c ConcCase) pbt.Verdict {
 	}
 	runDone := make(chan struct{})
 	go func() { _ = r.Run(); close(runDone) }()
-	time.Sleep(2 * time.Millisecond)
+	// requests before Run() has set up its maps are outside the domain: wait for the first launch
+	if !w.WaitFor(5*time.Second, func() bool { return len(w.EventsLocked()) > 0 }) {
+		v.Skip = true
+		return v
+	}
 
 	// churn: processes log, exit and get restarted all the time
 	stopChurn := make(chan struct{})
@@ -218,8 +222,19 @@ func checkConc(c ConcCase) pbt.Verdict {
 				return v
 			}
 			diag := ""
-			for _, cmd := range w.AllCmds() {
-				diag += fmt.Sprintf("cmd %s inst %d alive=%v; ", cmd.Replica, cmd.Inst, cmd.Alive())
+			all := w.AllCmds()
+			for _, cmd := range all {
+				if cmd.Alive() {
+					diag += fmt.Sprintf("ALIVE cmd %s inst %d; ", cmd.Replica, cmd.Inst)
+				}
+			}
+			diag += fmt.Sprintf("%d commands started in total; ", len(all))
+			for _, n := range []string{"a", "web-0", "web-1", "b", "dep", "job", "keeper"} {
+				st, _ := r.GetProcessState(n)
+				err := r.StopProcess(n)
+				if st != nil {
+					diag += fmt.Sprintf("%s: status=%s restarts=%d stop->%v; ", n, st.Status, st.Restarts, err)
+				}
 			}
 			v.Violations = append(v.Violations, fmt.Sprintf("after the concurrent rounds (ops %+v) ShutDownProject/Run() did not finish within 20 s\ncommands: %s\n%s", c.Ops, diag, stacks()))
 			return v
